@@ -18,6 +18,9 @@ KINDS = [
     (['import no_such_module_xyz'], 'IMPORT', [], []),
     (['vw.src:', '  v = 3'], None, [], [('', 'vw.src', 'v', 3)]),
     (['vw.unk1.y = @unkref()'], 'vw.unk1', ['unkref'], []),
+    # references with a scope two levels deep: known ones stay references, unknown ones placeholders
+    (['vw.lit.p = @a/b/vw.src()'], None, [], [('', 'vw.lit', 'p', ('REF', 'a/b/vw.src', True))]),
+    (['vw.lit.q = (@a/b/unkref,)'], None, ['unkref'], [('', 'vw.lit', 'q', (U('unkref', False),))]),
 ]
 NK = len(KINDS)
 SKIPS = [False, True, ['vw.unk1', 'vw.unk2', 'unkref', 'unkref2'], ['vw.unk1'],
@@ -48,7 +51,7 @@ def covered(name, skip):
 
 def c15_skip(n: int, k0: int, k1: int, k2: int, k3: int, skip: int, v0: int) -> bool:
   """
-  pre: 1 <= n <= 4 and 0 <= k0 < 9 and 0 <= k1 < 9 and 0 <= k2 < 9 and 0 <= k3 < 9 and 0 <= skip < 8
+  pre: 1 <= n <= 4 and 0 <= k0 < 11 and 0 <= k1 < 11 and 0 <= k2 < 11 and 0 <= k3 < 11 and 0 <= skip < 8
   """
   world.fresh()
   ks = [rt.pick(k, NK) for k in (k0, k1, k2, k3)[:n]]
@@ -137,9 +140,9 @@ HARNESSES = {
                              budget_s=100),
                'thorough': dict(split=dict(k0=list(range(NK)), k1=list(range(NK)), skip=list(range(NS))),
                                 fixed=dict(n=4), budget_s=600)},
-        bounds='3 (quick) / 4 (thorough) statements from 9 kinds (known binding, unknown binding, unknown block, known '
+        bounds='3 (quick) / 4 (thorough) statements from 11 kinds (known binding, unknown binding, unknown block, known '
                'binding with a top-level / nested+scoped unknown reference, macro holding an unknown reference, import '
-               'of a missing module, known block, unknown binding holding an unknown reference) x 8 forms of skip_unknown '
+               'of a missing module, known block, unknown binding holding an unknown reference, known and unknown references under a two-level scope) x 8 forms of skip_unknown '
                '(False, True, list/tuple/set covering everything, list and set covering part, empty list); static '
                'registration'),
 }
